@@ -7,7 +7,7 @@ def _nontrivial(op, out):
     toks = op.split()
     if toks[0] in ("and", "or"):
         return "n" in toks[2:] or any(t.startswith("E") for t in toks[2:])
-    if toks[0] == "treeall":
+    if toks[0] in ("treeall", "ltreeall"):
         return True          # every line runs all 3^k assignments, NULL included
     return " n" in op or out.startswith("err") or out == "n"
 
@@ -19,7 +19,7 @@ PROP = dict(
                        "Octo.C11.or_error_reached", "Octo.C11.strict_null", "Octo.C11.nullcheck_complete",
                        "Octo.C11.strict_null_welltyped", "Octo.C11.table_strict_null", "Octo.C11.comparisons_strict",
                        "Octo.C11.table_strict_except_null_handlers", "Octo.C11.is_null_never_null",
-                       "Octo.C11.den_sound", "Octo.C11.tree_kleene", "Octo.C11.filter_spec", "Octo.C11.filter_kleene",
+                       "Octo.C11.den_sound", "Octo.C11.tree_kleene", "Octo.C11.filter_spec", "Octo.C11.filter_kleene", "Octo.C11.typecheckU_sound", "Octo.C11.sql_tree_kleene",
                        "Octo.C11.C11_full"],
     nontrivial=_nontrivial,
     rule="ops: `and`/`or` over every operand list in {TRUE,FALSE,NULL}^k (k<=5 quick, k<=7 thorough) and over "
@@ -28,7 +28,9 @@ PROP = dict(
          "thorough) with n-ary junctions and error leaves; `tree`: explicit records incl. unsound static types, missing "
          "fields, short records, non-boolean columns, comparisons with NULL operands; `strict`: every descriptor of "
          "functions.FunctionMap() with NULL in each argument position (nullable type, NULL type, all-nullable, and the "
-         "ill-typed variant for modelled bodies); `filter`: nodes.Filter over random changelogs (retractions, "
+         "ill-typed variant for modelled bodies); `ltreeall`: logical.Expression trees (all of depth <=2 over c0,c1,TRUE,"
+         "FALSE,NULL; sampled to depth 4/7) typed by the REAL logical typechecker, the assigned types printed and "
+         "compared, evaluated on every record conforming to the column types; `filter`: nodes.Filter over random changelogs (retractions, "
          "watermarks, source errors). Built as real physical.Expression -> Materialize -> Evaluate. non-trivial = "
          "NULL or an error takes part in the line",
     exhaustive=dict(quick=True, thorough=True),
@@ -42,7 +44,8 @@ PROP = dict(
                  "the judge treats every function of FunctionMap() except `is null`, `is not null`, `string`, `panic` "
                  "as strict (theorem table_strict_except_null_handlers over the regenerated table)"],
     trusted=["Go compiler and runtime", "logical typechecker (logical/*.go) assigning sound static types — outside "
-             "the anchored files; exercised here through the typing rule the generator applies"],
+             "the anchored files; its behaviour on the boolean fragment is modelled (typecheckU) and tied by the "
+             "`ltreeall` ops, outside that fragment it is trusted"],
     level_text="Lean theorems (unbounded): And/Or.Evaluate equal the n-ary Kleene folds for every operand list; an error "
                "in operand i surfaces iff reached; NOT's table; every Strict descriptor of the regenerated "
                "functions.go table (all but the NULL handlers, comparisons included) returns NULL when a well-typed "
